@@ -51,6 +51,7 @@ func zzCrashRun(mode int, keys []string, pessimistic bool) *zzCrash {
 	}
 	cl.onePCAllowed = true
 	cl.noForeignResolver = true
+	cl.onlyCommitTsExpired = zzParam("crashfaultset", 0) == 1
 	cl.allowFaultOn = func(cmd tikvrpc.CmdType) bool {
 		return cmd == tikvrpc.CmdPrewrite || cmd == tikvrpc.CmdCommit
 	}
